@@ -297,6 +297,9 @@ def oracle_c06(cases, results, seed, thorough):
     for k, prof in enumerate(["multi-counterpart", "tree", "enum", "parents", "repeat"]):
         items += gen.gen_items(prof, seed * 1000 + 900 + k, 600 if not thorough else 4000)
     items = [it for it in items if len(it.meta.get("cparts", [])) >= 2 and not any(c.startswith("(") for c in it.meta["cparts"])]
+    # a trait-level `repeat(..)` hands parameters of one counterpart's instruction to the following instructions on purpose:
+    # such items are outside the projection's premise (C14 covers them)
+    items = [it for it in items if not any(a.tag and a.tag[0] == "trait" and "repeat" in (a.args or "") for a in it.attrs)]
     full = [(it.meta["id"], gen.render(it)) for it in items]
     a = expand("s1", full)
     # project onto every counterpart in turn (not only the first one written)
